@@ -113,7 +113,7 @@ fn sig_matches(known: &str, sig: &str) -> bool {
     if known == sig { return true }
     // a panic whose enclosing function could not be symbolised ("?") matches on file and message
     let (k, s): (Vec<&str>, Vec<&str>) = (known.split('|').collect(), sig.split('|').collect());
-    k.len() == 4 && s.len() == 4 && k[0] == "panic" && s[0] == "panic" && s[2] == "?" && k[1] == s[1] && k[3] == s[3]
+    k.len() == 5 && s.len() == 5 && k[0] == "panic" && s[0] == "panic" && s[2] == "?" && k[1] == s[1] && k[3] == s[3] && k[4] == s[4]
 }
 
 // ------------------------------------------------------------------------------------------------
